@@ -46,9 +46,14 @@ def run_one(seed_dir, props):
                      r.stdout.splitlines() if "rule=" in l]
             err = [l for l in r.stdout.splitlines()
                    if l.startswith("ANALYSIS-ERROR")]
+            und = sorted(set(
+                l.split("rules=")[1].split()[0] for l in
+                r.stdout.splitlines() if l.startswith("UNDECIDED")))
             out.append((sid, p, r.returncode,
-                        ",".join(sorted(set(rules)))
-                        or (err[0][:100] if err else "")))
+                        (",".join(sorted(set(rules)))
+                         or (err[0][:100] if err else "")) +
+                        ("  [undecided: %s]" % ",".join(und) if und
+                         else "")))
     finally:
         shutil.rmtree(tmp, ignore_errors=True)
     return out
